@@ -57,7 +57,7 @@ struct WsLedger {
 /** The wallet's own answers. */
 struct WsView {
     CAmount trusted{0}, untrusted_pending{0}, immature{0};
-    std::map<COutPoint, CAmount> available; //!< AvailableCoins() with default arguments
+    std::map<COutPoint, CAmount> available; //!< AvailableCoins() with a default CCoinControl and default filter
 };
 
 struct WalletSimOpts {
